@@ -956,6 +956,8 @@ class FuncEnv:
             return ('extsym', f'{base[1]}.{attr}')
         if base[0] == 'ext':
             return ('extattr', base[1], attr)
+        if base[0] == 'extattr':
+            return ('extattr', f'{base[1]}.{base[2]}', attr)
         if base[0] == 'union':
             for part in base[1]:
                 t = self.attr_type(part, attr)
